@@ -376,19 +376,24 @@ func decide(c Case) error {
 		}
 	}
 	if len(regClasses) > 0 {
-		for _, id := range order {
-			st := states[id]
-			var rerr error
-			next := http.HandlerFunc(func(w http.ResponseWriter, r *http.Request) {
-				for _, h := range c.Histories {
-					if h.Ctx == id {
-						if err := renderOne(h, r.Context(), st); err != nil {
-							rerr = err
-						}
+		// one middleware serves every request, as in a real server: each context of the case is
+		// one request to it, and what one request rendered must not be known to the next
+		var id int
+		var st *ctxState
+		var rerr error
+		next := http.HandlerFunc(func(w http.ResponseWriter, r *http.Request) {
+			for _, h := range c.Histories {
+				if h.Ctx == id {
+					if err := renderOne(h, r.Context(), st); err != nil {
+						rerr = err
 					}
 				}
-			})
-			mw := templ.NewCSSMiddleware(next, regClasses...)
+			}
+		})
+		mw := templ.NewCSSMiddleware(next, regClasses...)
+		for _, id = range order {
+			st = states[id]
+			rerr = nil
 			mw.ServeHTTP(httptest.NewRecorder(), httptest.NewRequest("GET", "/page", nil))
 			if rerr != nil {
 				return fmt.Errorf("render: %v", rerr)
